@@ -281,6 +281,11 @@ class ISISGrammar(PVLGrammar):
     group_keywords = {"GROUP": "END_GROUP"}
     object_pref_keywords = ("Object", "End_Object")
     object_keywords = {"OBJECT": "END_OBJECT"}
+    # The table derived from the keywords must follow the narrowing above
+    # (reserved_keywords stays as inherited: the BEGIN_ forms remain
+    # reserved words, as they are for the other dialects' readers).
+    aggregation_keywords = dict(group_keywords)
+    aggregation_keywords.update(object_keywords)
 
     # A single-line comment that starts with the octothorpe (#) is not part
     # of PVL or ODL, but it is used when ISIS writes out comments.
